@@ -224,6 +224,11 @@ def partitions(ck, an):
     rets = [fm.sym.canon(r.value) for r in returns_in(fm)]
     ck.check(len(rets) == 1 and rets[0].startswith("min(") and "total_seconds()" in rets[0] and ("np.diff(self.timesteps)" in rets[0] or "numpy.diff(self.timesteps)" in rets[0]), "LIN", "S6.min-gap", fm.f.short, fm.f.loc,
              "the minimum gap is min over consecutive timestep differences, in seconds", f"_min_timesteps_diff returns {rets}", construct="min gap")
+    for attr in ("_partition_latent", "_partition_nonlatent"):
+        st = [x for x in assigns_to_attr(fa, attr)]
+        vals = [ast.unparse(x.value) for x in st if isinstance(x, ast.Assign)]
+        ck.check(vals == ["defaultdict(list)"], "IDIOM", "S2.partitions-default-empty", subj, fa.f.loc, f"{attr} is a fresh defaultdict(list): a step without events of that kind yields an empty batch",
+                 f"{attr} = {vals}", construct=f"self.{attr} = defaultdict(list)")
     # ownership of the partitions
     for attr in ("_partition_latent", "_partition_nonlatent"):
         own_writers(ck, an, "S2.partitions-written-once", "Transmitter", attr, {"Transmitter._create_partitions", "Transmitter.__init__"}, min_sites=1)
